@@ -10,4 +10,5 @@ Extraction "model_gsd.ml"
   GsdShape.shapeb GsdShape.tree_size GsdShape.child_rx GsdShape.implicit_silent
   GsdRender.decode_settings GsdRender.settings_tree GsdRender.settings_okb GsdRender.tree_eqb
   GsdRender.decode_file GsdRender.file_okb GsdRender.file_says GsdRender.file_tree
+  GsdRender.ids_unique GsdRender.modules_first GsdRender.set_targets GsdRender.sets_of GsdRender.nodupb
   Peg.peg_parse.
